@@ -245,12 +245,13 @@ theorem C13_b2_register_ok :
    checkProgram_sound (by decide +kernel) []⟩
 
 /-- **signed arithmetic ends in a diagnostic or an image**: division by zero (numbers, and a label by a number),
-a product `label * negative` too large for the field, a negative EQU in a one-byte field, ORG of a negative number,
+a product `label * constant` above 65535 (batch B3: `label * negative` is reduced modulo 65536 and accepted, see
+`C13_b2_signed_ok`), a negative EQU in a one-byte field, ORG of a negative number,
 and the 8-bit PCR range check are diagnostics -/
 theorem C13_b2_signed_diag (fs : Files) :
     assemble fs (prog ["N EQU 0\n", " LDX #5/N\n"]) = .diag ∧
     assemble fs (prog ["N EQU 0\n", "L LDX #L/N\n"]) = .diag ∧
-    assemble fs (prog ["N EQU -300\n", " ORG $1000\n", "L LDX #L*N\n"]) = .diag ∧
+    assemble fs (prog ["N EQU 300\n", " ORG $1000\n", "L LDX #L*N\n"]) = .diag ∧
     assemble fs (prog ["N EQU -200\n", " FDB N\n", " FCB N\n"]) = .diag ∧
     assemble fs (prog ["S EQU -5\n", " ORG S\n", " NOP\n"]) = .diag ∧
     assemble fs (prog ["S LEAX T,PCR\n", " ORG $CB\n", "T NOP\n"]) = .diag :=
@@ -260,8 +261,9 @@ theorem C13_b2_signed_diag (fs : Files) :
 
 /-- ... and the accepted ones: `N/M`, `M/N` (truncation toward zero: `−7/2 = −3`, `2/−7 = 0`), `N*N`, `N−M` on numbers;
 `label / negative`, `label * negative` in a 16-bit field (two's complement); a negative value as an extended operand
-(never direct, even with `<`); `label * negative` as a PCR target (the magnitude 1228800 is reduced modulo 65536 by
-the distance computation — no internal error, whatever one thinks of the operand) -/
+(never direct, even with `<`); `label * negative` as an immediate and as a PCR target (batch B3: the product −1228800 is
+reduced modulo 65536 by `calculate_address_offset`, the target is `$4000` — no internal error, whatever one thinks of
+the operand) -/
 theorem C13_b2_signed_ok :
     (∃ a, assemble [] (prog ["N EQU -7\n", "M EQU 2\n", " LDX #N/M\n", " LDX #M/N\n", " LDX #N*N\n", " LDX #N-M\n"])
         = .ok a ∧
@@ -272,9 +274,56 @@ theorem C13_b2_signed_ok :
     (∃ a, assemble [] (prog ["N EQU -5\n", " LDA N\n", " LDA <N\n"]) = .ok a ∧
       imagesAre [some [], some [0xB6, 0xFF, 0xFB], some [0xB6, 0xFF, 0xFB]] a = true) ∧
     (∃ a, assemble [] (prog ["N EQU -300\n", " ORG $1000\n", "L LEAX L*N,PCR\n"]) = .ok a ∧
-      imagesAre [some [], some [], some [0x30, 0x8D, 0xAF, 0xFC]] a = true) :=
+      imagesAre [some [], some [], some [0x30, 0x8D, 0x2F, 0xFC]] a = true) ∧
+    (∃ a, assemble [] (prog ["N EQU -300\n", " ORG $1000\n", "L LDX #L*N\n"]) = .ok a ∧
+      imagesAre [some [], some [], some [0x8E, 0x40, 0x00]] a = true) :=
   ⟨checkProgram_sound (by decide +kernel) [], checkProgram_sound (by decide +kernel) [],
-   checkProgram_sound (by decide +kernel) [], checkProgram_sound (by decide +kernel) []⟩
+   checkProgram_sound (by decide +kernel) [], checkProgram_sound (by decide +kernel) [],
+   checkProgram_sound (by decide +kernel) []⟩
+
+/-! ### batch B3: label offsets of a pointer register, the rewritten `calculate_address_offset`, `A,X+`
+
+Again the NoInt* chain was re-proved on the model (`StmtOK.addl`: whatever `fix_addresses` has to resolve — with post byte
+choices, the PCR forms, or without, the new label offset — is a label index below the number of statements or a good
+label expression; `addrOffset_good`: the result of `calculate_address_offset` is a 16-bit magnitude again, so
+`numericOfInt target (some 4)` of the new branch of `fixOne` cannot fail), hence `assemble_internal_iff_expand` is
+unchanged.  The programs below exercise every new branch; all were replayed on the repaired code (/tmp/wt-b3n) with the
+same outcome and the same bytes. -/
+
+/-- **a label as constant offset of a pointer register** (16-bit offset form, post byte `$x9`): the label defined BEFORE
+(`T`) and AFTER (`V`) its use, plain, with a constant, indirect, and the extended indirect `[label+1]`; an EQU symbol is
+a number, not a label (5-bit form) -/
+theorem C13_b3_label_offset_ok :
+    (∃ a, assemble [] (prog ["T FCB 1\n", " LDA T,X\n", " LDB T+1,Y\n", " LDD [T,U]\n", " LDA [T+1]\n", " LDA V,S\n",
+        " LDX [V-1,X]\n", "V FCB 2\n"]) = .ok a ∧
+      imagesAre [some [0x01], some [0xA6, 0x89, 0x00, 0x00], some [0xE6, 0xA9, 0x00, 0x01], some [0xEC, 0xD9, 0x00, 0x00],
+        some [0xA6, 0x9F, 0x00, 0x01], some [0xA6, 0xE9, 0x00, 0x19], some [0xAE, 0x99, 0x00, 0x18], some [0x02]] a = true) ∧
+    (∃ a, assemble [] (prog [" LDA T,X\n", "T EQU 5\n"]) = .ok a ∧ imagesAre [some [0xA6, 0x05], some []] a = true) :=
+  ⟨checkProgram_sound (by decide +kernel) [], checkProgram_sound (by decide +kernel) []⟩
+
+/-- **left `op` right in the written order**: `5-L` is 5 minus the address (reduced modulo 65536), `$4000/L` divides BY the
+address, `0/L` is 0, `3*L` as a label offset; `5-L` as a PCR target -/
+theorem C13_b3_order_ok :
+    (∃ a, assemble [] (prog [" ORG $10\n", "L FDB 5-L\n", " LDX #$4000/L\n", " LEAX 5-L,PCR\n"]) = .ok a ∧
+      imagesAre [some [], some [0xFF, 0xF5], some [0x8E, 0x04, 0x00], some [0x30, 0x8C, 0xDD]] a = true) ∧
+    (∃ a, assemble [] (prog [" ORG $10\n", "L LDX #0/L\n", " LDA 3*L,X\n"]) = .ok a ∧
+      imagesAre [some [], some [0x8E, 0x00, 0x00], some [0xA6, 0x89, 0x00, 0x30]] a = true) :=
+  ⟨checkProgram_sound (by decide +kernel) [], checkProgram_sound (by decide +kernel) []⟩
+
+/-- **the diagnostics of the new branches**: division of a label by zero (immediate and as a label offset), a label
+offset above 65535 (product, and an address beyond the 64K space), an accumulator offset with auto increment or
+decrement (plain and indirect) -/
+theorem C13_b3_diag (fs : Files) :
+    assemble fs (prog ["L LDX #L/0\n"]) = .diag ∧
+    assemble fs (prog [" ORG 5\n", "L LDA L/0,X\n"]) = .diag ∧
+    assemble fs (prog ["N EQU 300\n", " ORG $1000\n", "L LDA L*N,X\n"]) = .diag ∧
+    assemble fs (prog [" ORG $FFFE\n", " NOP\n", "T NOP\n", " LDA T+1,X\n"]) = .diag ∧
+    assemble fs (prog [" LDA A,X+\n"]) = .diag ∧ assemble fs (prog [" LDA B,-X\n"]) = .diag ∧
+    assemble fs (prog [" LDA [D,--Y]\n"]) = .diag :=
+  ⟨diagProgram_sound (by decide +kernel) fs, diagProgram_sound (by decide +kernel) fs,
+   diagProgram_sound (by decide +kernel) fs, diagProgram_sound (by decide +kernel) fs,
+   diagProgram_sound (by decide +kernel) fs, diagProgram_sound (by decide +kernel) fs,
+   diagProgram_sound (by decide +kernel) fs⟩
 
 /-- What holds of C13.  (1)-(4): the PCR loop and the whole assembly never run out of fuel, and parsing fails
 only with a diagnostic.  (5): an internal error comes from the nesting budget of INCLUDE and from nothing else.
